@@ -44,6 +44,7 @@ type summary struct {
 var wantKinds = map[string][]string{
 	"bypass-origin":                   {"std", "iat", "return", "noc"},
 	"bypass-origin-traces":            {"std", "iat"},
+	"short-trace-numbers":             {"std"},
 	"bypass-destination":              {"std", "iat", "adv", "return", "noc"},
 	"custom-trace-numbers":            {"std", "iat"},
 	"allow-zero-batches":              {"empty"},
@@ -195,14 +196,27 @@ func verify(g *ach.File, v *gen.OptVariant) (msgs []string) {
 	if v == nil {
 		return []string{"unknown variant"}
 	}
-	if g.GetValidation() == nil {
-		return []string{"no options stored on the file"}
+	// the options are stored on the file and its batches, or (batch-level variants, one time in four) on the
+	// batches only
+	want := g.GetValidation()
+	if want == nil {
+		if v.Level != "batch" || v.Stale || len(g.Batches)+len(g.IATBatches) == 0 {
+			return []string{"no options stored on the file"}
+		}
+		if len(g.Batches) > 0 {
+			want = ach.VerifBatchValidation(g.Batches[0])
+		} else {
+			want = ach.VerifIATBatchValidation(&g.IATBatches[0])
+		}
+		if want == nil {
+			return []string{"no options stored on the file nor on its batches"}
+		}
 	}
 	if err := gen.ValidAll(g); err != nil {
 		msgs = append(msgs, "does not validate under its options: "+err.Error())
 	}
 	for _, b := range g.Batches {
-		if ach.VerifBatchValidation(b) != g.GetValidation() {
+		if ach.VerifBatchValidation(b) != want {
 			msgs = append(msgs, "a batch does not carry the file's option set")
 		}
 	}
